@@ -24,7 +24,7 @@ type c15Outcome struct {
 	result uint64 // ioctl result code when err is false
 }
 
-var c15Outcomes = []c15Outcome{{true, 0}, {false, 0}, {false, 1}, {false, 7}, {false, 8}, {false, 9}}
+var c15Outcomes = []c15Outcome{{true, 0}, {false, 0}, {false, 1}, {false, 7}, {false, 8}, {false, 9}, {false, 1 << 32}, {false, 9 << 32}, {false, 1 << 63}, {false, 0xffffffff}}
 
 const c15Buf = 16384 // the buffer the protocol gives the device (4*4*1024), from the ABI description, not from the repo's constant
 
@@ -453,9 +453,9 @@ func init() {
 		RealStub: map[string]string{"client.GetRawQuote/GetQuote": "real", "abi.QuoteToProto": "real", "client.Device": "stub (scripted)", "client.QuoteProvider": "stub (scripted)", "LinuxDevice ioctl": "not exercised (only Open on a temp path)"},
 		Runs: func(tier string) int {
 			if tier == "thorough" {
-				return 18 * 20
+				return 30 * 12
 			}
-			return 18
+			return 30
 		},
 		Run:         c15Run,
 		MustProbe:   []string{"good_outcome", "earlier_results_rechecked_after_later_calls", "getquote_equals_parse", "fallback_to_device_path", "provider_support_toggles", "status0_bad_outlen_0", "status0_bad_outlen_buffer+1"},
